@@ -176,6 +176,8 @@ PROGRAMS += [
     "eval = eval\ndef compute(expression_text, threshold_value=10):\n    doubled_threshold = threshold_value * 2\n    return eval(expression_text)\nprint(compute('doubled_threshold + 1'))",
     "__all__ = ('public_api',)\ndef public_api():\n    return 1\ndef helper_function():\n    return public_api()\nprint(helper_function(), __all__)",
     "import sys\nif sys:\n    __all__ = ['public_api']\ndef public_api():\n    return 1\nprint(public_api(), __all__)",
+    "from __future__ import annotations\ndef make():\n    class Point:\n        x: 'coordinate in millimetres' = 0\n        y: 'coordinate in millimetres' = 0\n    def scaled(a: 'coordinate in millimetres' = 0) -> 'coordinate in millimetres':\n        return a\n    return sorted(Point.__annotations__.items()), scaled(2)\nprint(make())",
+    "__all__: list = ['public_api']\n__all__ += ['other_api']\ndef public_api():\n    return 1\ndef other_api():\n    return 2\ndef helper_function():\n    return public_api() + other_api()\nprint(helper_function(), __all__)",
     "def make_base():\n    class Base:\n        def __init__(self): self.__token = 'base'\n        def base_token(self): return self.__token\n    return Base\ndef make_derived(base):\n    class Derived(base):\n        def __init__(self): super().__init__(); self.__token = 'derived'\n        def derived_token(self): return self.__token\n    return Derived\nd = make_derived(make_base())()\nprint(d.base_token(), d.derived_token())",
 ]
 # a class body inside a function that declares a name global / nonlocal (or not) and reads / binds it, with a same-named function local and module global
@@ -489,14 +491,16 @@ def main(argv):
             if not isinstance(st, (ast.Assign, ast.AugAssign, ast.AnnAssign)):
                 continue
             tg = st.targets[0] if isinstance(st, ast.Assign) else getattr(st, 'target', None)
-            if isinstance(tg, ast.Name) and tg.id == '__all__' and isinstance(getattr(st, 'value', None), ast.List):
+            if isinstance(tg, ast.Name) and tg.id == '__all__' and isinstance(getattr(st, 'value', None), (ast.List, ast.Tuple)):
                 exported += [e.value for e in st.value.elts if isinstance(e, ast.Constant) and isinstance(e.value, str)]
         if exported:
             cases += 1
-            outg = python_minifier.minify(src, rename_globals=True)
-            for nm in exported:
-                if all_identifiers(ast.parse(outg)).count(nm) < all_identifiers(tree).count(nm):
-                    fails.append({'oracle': 'preserve', 'options': 'rename_globals with __all__', 'input': src, 'failure': 'name %s listed in __all__ was renamed: %r' % (nm, outg[:200])})
+            for extra_kw in ({}, {'remove_annotations': False}):
+                outg = python_minifier.minify(src, rename_globals=True, **extra_kw)
+                for nm in exported:
+                    if all_identifiers(ast.parse(outg)).count(nm) < all_identifiers(tree).count(nm):
+                        fails.append({'oracle': 'preserve', 'options': 'rename_globals with __all__ %r' % (extra_kw,), 'input': src,
+                                      'failure': 'name %s listed in __all__ was renamed: %r' % (nm, outg[:200])})
         for nm, kw in tests:
             cases += 1
             kw = dict(kw, remove_annotations=False)
